@@ -109,7 +109,7 @@ class ConformationContainer:
                 group.atom, 1, group.atom)
             # coupled groups
             for bond_group in bonded_groups:
-                if bond_group in group.covalently_coupled_groups:
+                if any(bond_group is g for g in group.covalently_coupled_groups):
                     continue
                 if bond_group.atom.sybyl_type == group.atom.sybyl_type:
                     group.couple_covalently(bond_group)
